@@ -101,6 +101,9 @@ mod text;
 mod textselection;
 mod types;
 
+#[cfg(stam_verif)]
+mod verif;
+
 #[cfg(feature = "csv")]
 mod csv;
 
